@@ -72,6 +72,31 @@ def _listing(job):
     return out
 
 
+def _open_session_listing(job):
+    """the listing interfaces inside a WRITE or APPEND session, before close(): every name the session lists is found
+    by getinfo (with and without a trailing slash), in the order getnames/namelist/list/files agree on"""
+    mode, base, members = job
+    import py7zr
+    buf = io.BytesIO(base or b"")
+    out = []
+    with py7zr.SevenZipFile(buf, mode) as z:
+        for step, (name, data) in enumerate(members):
+            if data is None:
+                z.writestr(b"", name)
+            else:
+                z.writestr(data, name)
+            names = z.getnames()
+            same = names == z.namelist() == [f.filename for f in z.list()] == [f.filename for f in z.files]
+            found = []
+            for n in names:
+                try:
+                    found.append(z.getinfo(n).filename == n and z.getinfo(n + "/").filename == n)
+                except KeyError:
+                    found.append(False)
+            out.append((names, same, found))
+    return out
+
+
 def gen_archives(ctx, rng, tmp):
     """-> list of (label, bytes, open password, supplied?)"""
     out = []
@@ -197,6 +222,22 @@ def run(ctx):
                 has_aes = any("06f10701" in f for f in ids)
                 if v["needs_password"] != (has_aes or pw is not None):
                     ctx.fail("C10:needs_password", "needs_password()=%s but AES coder present=%s, password supplied=%s" % (v["needs_password"], has_aes, pw is not None), inp)
+        # the same interfaces inside write and append sessions
+        small = [("w/a.txt", b"alpha" * 5), ("w/b.bin", bytes(range(40))), ("w/empty", None)]
+        base = arclib.write_archive([("old/x.txt", b"x" * 30), ("old/y.txt", b"y" * 9)])
+        ojobs = [("w", None, small), ("a", base, small), ("a", None, small[:2])]
+        for (mode, b, members), (st, val) in zip(ojobs, sandbox.pmap(_open_session_listing, ojobs, timeout=60)):
+            conf = {"session": "mode %r on %s" % (mode, "an existing archive" if b else "a new file"), "calls": ["writestr(%r)" % n for n, _ in members]}
+            ctx.case(key=("open-session", mode, bool(b)), nontrivial=True, sample=conf)
+            if st != "ok":
+                ctx.fail("C10:listing_raises", "listing inside a write session did not complete: %s" % str(val)[:200], conf)
+                continue
+            for step, (names, same, found) in enumerate(val):
+                if not same:
+                    ctx.fail("C10:names_interfaces", "inside the session the listing interfaces disagree after call %d" % step, dict(conf, names=names))
+                if not all(found):
+                    ctx.fail("C10:getinfo", "inside the session getinfo() does not find %r, which the listing shows (after call %d)"
+                             % ([n for n, f in zip(names, found) if not f][:3], step), dict(conf, names=names))
         ctx.correspond("ls.names", l1, o1)
         ctx.correspond("ls.needpw", l2, o2)
         ctx.correspond("ls.solid", l3, o3)
